@@ -10,6 +10,8 @@ def main(argv):
     tier = "quick"
     seed = 0
     S = Server()
+    S.peer_variant = {"hashseed": 977, "import_order": list(reversed(S.import_order)),
+                      "flags": ["-O"]}
     plan = runner.build_plan(tier, None, seed)
     if argv[0] == "find":
         for i, e in enumerate(plan):
@@ -31,6 +33,9 @@ def main(argv):
         spec = runner.make_spec(S, seed, i, tier, entry)
         out = runner.execute(S, spec)
         print(i, entry, "harness_error" in out and out["harness_error"])
+        if S.h9_mismatches:
+            print("  H9", json.dumps(S.h9_mismatches[0])[:400])
+            del S.h9_mismatches[:]
         if "violations" in out:
             print("  counters", out["counters"], "switches", out["stats"]["switches"],
                   "faults", out["stats"]["faults_fired"], out["stats"]["stack_faults_fired"], "lock_blocks", out["stats"]["lock_blocks"], "probes", out["probes"])
